@@ -875,6 +875,33 @@ func (wd *vC02World) batchCase(i int) {
 	if n > 2 && rng.Intn(12) == 0 { // the same pair twice
 		entries[n-1] = entries[0]
 	}
+	// mixed-up entries: two valid signatures whose scalar halves are exchanged, or shifted by +d / -d; each is
+	// invalid on its own while the plain sum of the pair is unchanged
+	if n >= 2 && rng.Intn(5) == 0 {
+		a, b := rng.Intn(n), rng.Intn(n)
+		ka, kb := entries[a].kind, entries[b].kind
+		if a != b && (ka == "valid" || ka == "valid-raw") && (kb == "valid" || kb == "valid-raw") {
+			if rng.Intn(2) == 0 {
+				var tmp [32]byte
+				copy(tmp[:], entries[a].sig[32:])
+				copy(entries[a].sig[32:], entries[b].sig[32:])
+				copy(entries[b].sig[32:], tmp[:])
+				entries[a].kind, entries[b].kind = "scalar-halves-exchanged", "scalar-halves-exchanged"
+			} else {
+				d := vC02Scalar(rng)
+				sa, ea := edwards25519.NewScalar().SetCanonicalBytes(entries[a].sig[32:])
+				sb, eb := edwards25519.NewScalar().SetCanonicalBytes(entries[b].sig[32:])
+				if ea == nil && eb == nil {
+					copy(entries[a].sig[32:], edwards25519.NewScalar().Add(sa, d).Bytes())
+					copy(entries[b].sig[32:], edwards25519.NewScalar().Subtract(sb, d).Bytes())
+					entries[a].kind, entries[b].kind = "scalar-shifted-compensating", "scalar-shifted-compensating"
+				}
+			}
+			if entries[a].kind != ka {
+				bad[entries[a].kind] = true
+			}
+		}
+	}
 	keys := make([]*crypto.Key, n)
 	sigs := make([]*crypto.Signature, n)
 	all := true
@@ -943,7 +970,7 @@ func TestVerif_C02(t *testing.T) {
 	r.SetRule("ledger simulator with outputs of 1..64 keys and thresholds 0..64; candidates spend 1..4 outputs with honest signer sets of size threshold-1 / threshold / more, as signature maps or aggregate " +
 		"signatures, about half of them forged (wrong key, reused signature, index out of range, maps swapped or moved between inputs, other payload, S+L, shifted / extended / shrunk / unsorted masks, ...); " +
 		"every acceptance is re-judged with crypto/ed25519 and the store's key lists; every byte of accepted encodings is changed once (stratified on large ones); BatchVerify is compared with single Verify on " +
-		"mixes of valid, invalid, low-order, mixed-order and non-canonical entries; non-trivial = distinct accepted transactions with >=2 inputs or threshold >=2, distinct rejected forgeries, and distinct batch shapes")
+		"mixes of valid, invalid, low-order, mixed-order, non-canonical and mixed-up (scalar halves exchanged or shifted by +d/-d between two entries) entries; non-trivial = distinct accepted transactions with >=2 inputs or threshold >=2, distinct rejected forgeries, and distinct batch shapes")
 	r.Assume("the payload hash is the repository's Blake3 of its own payload encoding (encoding and hashing are the subject of C06)")
 	r.Assume("crypto/ed25519.Verify and filippo.io/edwards25519 are the reference for 'valid signature'; the spent outputs' key lists and scripts are read through ReadUTXOLock")
 	r.Assume("the threshold-zero exception is applied per signature map for authorization bytes and to the whole transaction for payload bytes")
